@@ -1,6 +1,6 @@
 """C19 ARM64 JIT output is equivalent to the interpreter."""
 import astq
-from rules import a64hsem, a64patch, a64sem, genreset, jit, jitcross, rtpreserve, a64dsread
+from rules import a64hsem, a64patch, a64sem, genreset, jit, jitcross, rtpreserve, a64dsread, a64fp
 
 LEVEL = 'other'
 TECHNIQUE = ('cross-target parse (clang --target=aarch64) of the back-end that this host never compiles + sibling agreement with the interpreter on resolved-AST feature vectors, known-bits and A64 logical-immediate decoding of emitted constants, max-path code-size bound against the assembled template, known-bits abstract execution of the immediate helpers over 529 immediate classes'
@@ -29,6 +29,10 @@ EXPLANATION += ' A64-LOOPLOAD, A64-DSREAD-LIGHT.'
 CLAIM += (' The load half of the loop, with the scratchpad masks either generator writes, executed on terms: r_j ^= quadword j at scratchpad + (spMix low & L3 mask); the sixteen sign-extended 32-bit integers at scratchpad + (spMix high & L3 mask) go to the lanes of v16..v23 in order; only e0-e3 are masked (A64-LOOPLOAD).')
 
 EXPLANATION += ' A64-DSITEM-HSEM.'
+
+EXPLANATION += ' A64-FP-HSEM.'
+CLAIM = CLAIM.replace(' The floating-point handlers remain covered by the structural rules only.', '')
+CLAIM += (' The nine floating-point handlers are validated at word level on a vector register file of lane terms: operation, operand registers and lanes of specification 5.3, the memory operand converted from the two 32-bit integers at the masked scratchpad address, FDIV_M through the mask operation and registers of the loop head, FSCAL_R with the register the prologue fills with 0x80F0000000000000 (A64-FP-HSEM).')
 
 
 def run(ctx, R):
@@ -65,3 +69,4 @@ def run(ctx, R):
     genreset.rule_ctor_init(ctx, R, 'a64')
     rtpreserve.rule_store_order(ctx, R, 'a64')
     a64dsread.rule_dsitem(ctx, R)
+    a64fp.rule_fp_hsem(ctx, R)
